@@ -60,6 +60,7 @@ func runC09(p *Prog, r *Report) {
 	r.MinInstances["C09.R4"] = 5
 	r.MinInstances["C09.R5"] = 1
 	r.MinInstances["C09.R6"] = 1
+	r.MinInstances["C09.R7"] = 3
 	rv, err := FindRendezvous(p)
 	if err != nil {
 		r.Unk("C09.anchor", "rendezvous", "-", err.Error())
@@ -75,6 +76,7 @@ func runC09(p *Prog, r *Report) {
 	c09R4(p, r)
 	c09R5(p, r, rv)
 	c09R6(p, r)
+	c09R7(p, r)
 }
 
 type setEdit struct {
@@ -481,12 +483,46 @@ func c09R3(p *Prog, r *Report, rv *Rendezvous) {
 	r.Check(cached == "", "C09.R3", "no cached copy of the reported state", "-", "no struct field holds a GroupTriggerState", "a copy of the connection state is kept in a struct field ("+cached+"): reported and used state can diverge")
 	// (c) every request closure that can edit the table publishes the recomputed state afterwards on every path
 	memo := map[*ssa.Function]bool{}
-	for _, cl := range rv.Closures {
+	closures := append([]*ssa.Function{}, rv.Closures...)
+	queued := map[*ssa.Function]bool{}
+	for _, cl := range closures {
+		queued[cl] = true
+	}
+	for ci := 0; ci < len(closures); ci++ {
+		cl := closures[ci]
 		var edits []ssa.Instruction
 		Instrs(cl, func(in ssa.Instruction) {
 			cc := CallOf(in)
 			if cc == nil {
 				return
+			}
+			// a request closure that only runs a function value handed to its maker (a wrapper
+			// that queues `change` and sends its result): the edit and the report are in the
+			// functions that value can be; they are checked as request closures themselves
+			if cc.StaticCallee() == nil && !cc.IsInvoke() {
+				if _, isB := cc.Value.(*ssa.Builtin); !isB {
+					all, any := true, false
+					var inner []*ssa.Function
+					for _, c := range p.callees(in) {
+						if c == nil {
+							continue
+						}
+						any = true
+						if c.Parent() == nil || !isModuleFn(c) {
+							all = false
+						}
+						inner = append(inner, c)
+					}
+					if any && all {
+						for _, c := range inner {
+							if !queued[c] && writesSources(p, c, memo) {
+								queued[c] = true
+								closures = append(closures, c)
+							}
+						}
+						return
+					}
+				}
 			}
 			for _, c := range p.callees(in) {
 				if c != nil && fnPkg(c) != nil && strings.HasPrefix(fnPkg(c).Path(), modPath) && writesSources(p, c, memo) {
@@ -545,17 +581,108 @@ func c09R3(p *Prog, r *Report, rv *Rendezvous) {
 			walk(s.X, 0)
 			return found
 		}
+		// derivesFrom: v is computed from root (operands, and what was stored into local structs)
+		derivesFrom := func(v, root ssa.Value) bool {
+			found := false
+			seen := map[ssa.Value]bool{}
+			var walk func(v ssa.Value, d int)
+			walk = func(v ssa.Value, d int) {
+				if v == nil || seen[v] || d > 8 || found {
+					return
+				}
+				seen[v] = true
+				if v == root {
+					found = true
+					return
+				}
+				if in2, ok := v.(ssa.Instruction); ok {
+					for _, op := range in2.Operands(nil) {
+						if *op != nil {
+							walk(*op, d+1)
+						}
+					}
+					if a, ok := v.(*ssa.Alloc); ok {
+						for _, ref := range *a.Referrers() {
+							if fa, ok := ref.(*ssa.FieldAddr); ok {
+								for _, r2 := range *fa.Referrers() {
+									if st, ok := r2.(*ssa.Store); ok {
+										walk(st.Val, d+1)
+									}
+								}
+							}
+						}
+					}
+				}
+			}
+			walk(v, 0)
+			return found
+		}
+		// a helper that is handed the recomputed state and sends it on every path
+		passesState := func(in ssa.Instruction, after ssa.Instruction) bool {
+			call, ok := in.(*ssa.Call)
+			if !ok || call.Call.StaticCallee() == nil || !isModuleFn(call.Call.StaticCallee()) || call.Call.StaticCallee().Blocks == nil {
+				return false
+			}
+			h := call.Call.StaticCallee()
+			if len(h.Params) != len(call.Call.Args) {
+				return false
+			}
+			for k, a := range call.Call.Args {
+				if typeName(a.Type()) != "GroupTriggerState" {
+					continue
+				}
+				src, isCall := a.(*ssa.Call)
+				if !isCall || !(src.Call.IsInvoke() && src.Call.Method.Name() == "ComputeGroupTriggerState" || (src.Call.StaticCallee() != nil && strings.Contains(src.Call.StaticCallee().Name(), "omputeGroupTriggerState"))) {
+					continue
+				}
+				if after != nil && !InstrReaches(after, src) {
+					continue
+				}
+				miss := ReachAvoiding(h, nil, func(x ssa.Instruction) bool {
+					sd, ok := x.(*ssa.Send)
+					return ok && typeName(sd.X.Type()) == "ClientUpdate" && derivesFrom(sd.X, h.Params[k])
+				}, isReturn)
+				if len(miss) == 0 {
+					return true
+				}
+			}
+			return false
+		}
 		for i, ed := range edits {
 			// the report may be made by a helper that computes the state and sends it on every path
 			viaHelper := MustPass(func(in ssa.Instruction) bool { return isPublish(in, nil) }, 2)
 			miss := ReachAvoiding(cl, ed, func(in ssa.Instruction) bool {
-				if isPublish(in, ed) {
+				if isPublish(in, ed) || (in != ed && passesState(in, ed)) {
 					return true
 				}
 				_, isCall := in.(*ssa.Call)
 				return isCall && in != ed && viaHelper(in)
 			}, isReturn)
 			name := fmt.Sprintf("%s: table-writing call #%d (%s) is followed by a state report", FuncName(cl), i+1, shortName(CalleeName(CallOf(ed))))
+			if len(miss) > 0 {
+				// a helper that reports under a condition of its own (source active and running)
+				// on every way to the exit: whether that condition holds here is not decided
+				mayPublish := func(in ssa.Instruction) bool {
+					call, ok := in.(*ssa.Call)
+					if !ok || in == ed || call.Call.StaticCallee() == nil || !isModuleFn(call.Call.StaticCallee()) {
+						return false
+					}
+					found := false
+					for _, g := range DeepFuncs(call.Call.StaticCallee(), 1) {
+						Instrs(g, func(y ssa.Instruction) {
+							if isPublish(y, nil) {
+								found = true
+							}
+						})
+					}
+					return found
+				}
+				miss2 := ReachAvoiding(cl, ed, func(in ssa.Instruction) bool { return isPublish(in, ed) || mayPublish(in) }, isReturn)
+				if len(miss2) == 0 {
+					r.Unk("C09.R3", name, p.InstrPos(ed), "every way to the exit passes a helper that reports the connection state, but the helper reports only under a condition of its own: not decided whether it always holds here")
+					continue
+				}
+			}
 			if len(miss) == 0 {
 				r.OK("C09.R3", name, p.InstrPos(ed), "every path from the call to an exit publishes the connection state recomputed after the call")
 			} else {
